@@ -82,4 +82,76 @@ def run (c : Case) : String :=
   | none, _ => s!"res {c.id} unsupported"
   | _, none => s!"res {c.id} bad-script"
 
+/-! ### `kind=subjx`: subscribing with a ready-made Subscriber (go/harness/subjx.go)
+
+  `X i` (a Subscriber that is already unsubscribed) and `Y i` (a Subscriber that unsubscribes itself inside its first Next
+  callback) are reduced to the sequential model: the subject runs `Subscribe i`, and `Unsubscribe i` follows at the point
+  where the subscriber closed itself; what the subscription delivered to a subscriber that was closed by then went to the
+  dropped-notification hook instead. -/
+
+inductive XOp
+  | plain (o : Op Int)
+  | dead (i : Nat) (c : Ctx)       -- X i
+  | selfUnsub (i : Nat) (c : Ctx)  -- Y i
+
+def parseXOp (k : Nat) (t : String) : Option XOp :=
+  match t.toList with
+  | 'X' :: r => (String.ofList r).toNat?.map (fun i => XOp.dead i (opCtx k))
+  | 'Y' :: r => (String.ofList r).toNat?.map (fun i => XOp.selfUnsub i (opCtx k))
+  | _ => (parseOp k t).map XOp.plain
+
+def parseXOps (s : String) : Option (List XOp) :=
+  if s == "-" || s == "" then some []
+  else ((s.splitOn ",").zipIdx).mapM (fun p => parseXOp (p.2 + 1) p.1)
+
+/-- give subscriber `i` the trace `keep` and hand `dropped` to the hook -/
+def rewrite (s : State Int) (i : Nat) (keep dropped : List (Notif Int)) : State Int :=
+  let s := s.modSub i (fun x => { x with got := keep })
+  { s with drops := s.drops ++ dropped }
+
+/-- after a step: every armed (`Y`, no value seen yet) subscriber that has just been delivered something closes itself after
+    the first value; the rest of what that step delivered to it was refused -/
+def settle (k : Kind Int) (before s : State Int) (armed : List Nat) (replay : Bool) : State Int × List Nat :=
+  armed.foldl (fun (acc : State Int × List Nat) i =>
+    let (s, still) := acc
+    let old := (before.sub i).got
+    let new := ((s.sub i).got).drop old.length
+    match new with
+    | [] => (s, still ++ [i])
+    | .next c v :: rest =>
+      -- during its own Subscribe the rest of the replay is handed to the closed subscriber (refused: dropped hook); during a
+      -- broadcast (async's Complete: the value loop, then the completion loop) the subscriber has left the observer map by
+      -- the time the second loop runs: it is simply not visited
+      let s := rewrite s i (old ++ [.next c v]) (if replay then rest else [])
+      (k.step s (.unsubscribe i), still)
+    | _ => (s, still)) (s, [])
+
+def stepX (k : Kind Int) (st : State Int × List Nat) : XOp → State Int × List Nat
+  | .plain o =>
+    let (s, armed) := st
+    settle k s (k.step s o) armed false
+  | .dead i c =>
+    let (s, armed) := st
+    let old := (s.sub i).got
+    let s1 := k.step s (.subscribe i c)
+    let delivered := ((s1.sub i).got).drop old.length
+    let s2 := k.step (rewrite s1 i old delivered) (.unsubscribe i)
+    (s2, armed)
+  | .selfUnsub i c =>
+    let (s, armed) := st
+    let s1 := k.step s (.subscribe i c)
+    let (s2, still) := settle k s s1 [i] true
+    (s2, armed ++ still)
+
+def runX (c : Case) : String :=
+  match parseKind (c.getD "op" "?") (parseInts (c.getD "p" "-")), parseXOps (c.getD "src" "-") with
+  | some k, some ops =>
+    let (final, sts) := ops.foldl (fun (acc : (State Int × List Nat) × List String) o =>
+      let st' := stepX k acc.1 o
+      (st', acc.2 ++ [renderSt st'.1])) ((k.init, []), [])
+    let s := final.1
+    s!"res {c.id} r0={renderTrace (s.sub 0).got} r1={renderTrace (s.sub 1).got} r2={renderTrace (s.sub 2).got} drops={renderBare s.drops} st={if sts.isEmpty then "-" else ",".intercalate sts} hang=0"
+  | none, _ => s!"res {c.id} unsupported"
+  | _, none => s!"res {c.id} bad-script"
+
 end Ro.Driver.Drivers.Subject
